@@ -3,7 +3,7 @@
 # usage: tools/bg_thorough.sh <tier> <ID>...
 TIER="$1"; shift
 SNAP="$(pwd)"
-export CARGO_NET_OFFLINE=true CARGO_TARGET_DIR=/root/.vp/bgtarget VERIF_OUT="$SNAP/out" VERIF_THREADS="${VERIF_THREADS:-12}"
+export CARGO_NET_OFFLINE=true CARGO_TARGET_DIR=/root/.vp/bgtarget VERIF_OUT="$SNAP/out" VERIF_THREADS="${VERIF_THREADS:-13}"
 mkdir -p "$VERIF_OUT"
 (cd harness && cargo build --offline 2>&1 | tail -1)
 for id in "$@"; do
